@@ -13,7 +13,7 @@ def part_history(ctx):
     heads, sect = 2, 16
     st, ln = 2 + rng.choice([0, 3]), rng.randint(40, 70)
     st2, ln2 = st + ln, rng.randint(45, 60)
-    cyl = st2 + ln2 + 1
+    cyl = max(st2 + ln2 + 1, 3521 // (heads * sect) + 2)     # up to 3520 blocks a non-floppy device is of unknown type and cannot be mounted
     which = rng.choice([0, 1])
     kind = "PART:%d:%d:%d:%d,%d;%d,%d" % (cyl, heads, sect, st, ln, st2, ln2)
     first = heads * sect * (st if which == 0 else st2)
@@ -32,6 +32,9 @@ def part_history(ctx):
 
 def run(ctx):
     proof = common.proof_status(ctx)
+    # block-level correspondence of the file block-list model the FileMap theorems are about
+    from . import filemapcorr
+    filemapcorr.run(ctx, 8 if ctx.tier == "quick" else 200)
     tf = common.translator_failures(ctx, NEEDED)
     if tf:
         proof["problems"].append("translator could not translate: %s" % tf)
